@@ -39,6 +39,9 @@ func wellFormed(r *rand.Rand, format string, size int) []byte {
 			buf.WriteByte('\n')
 		}
 		for i := 0; i < size; i++ {
+			if r.IntN(12) == 0 {
+				buf.WriteString("\n") // empty lines are skipped
+			}
 			genSAM(r).Write(&buf)
 		}
 	case "bed":
@@ -46,6 +49,9 @@ func wellFormed(r *rand.Rand, format string, size int) []byte {
 		for i := 0; i < size; i++ {
 			if r.IntN(10) == 0 {
 				buf.WriteString("#comment " + string(randBytesExcl(r, r.IntN(10), noCRLF)) + "\n")
+			}
+			if r.IntN(10) == 0 {
+				buf.WriteString("\n") // empty lines are skipped
 			}
 			genBED(r, n).Write(&buf)
 		}
